@@ -1,5 +1,6 @@
 import WK.Model.C08
 import WK.Spec.C08
+import WK.Proofs.C08_Hist
 /-
   C08 — theorems.
 
@@ -360,5 +361,44 @@ theorem c08_validate_keeps_cover (H : Hash) (st : Store) (c mode : Nat) (f : Fil
       cases h : (ensureLoaded H (st.chan c) f).may (H row.frm row.cmn) <;> simp_all
     simp only [this, Bool.not_false, if_true]
     exact key _ hwf (fun _ => hcov) _
+
+/-! ### uniqueness over whole histories (phase 3; from the C07 store invariant) -/
+
+/-- **c08_unique_idem**: after ANY operation sequence that respects the caller contracts
+    (`SafeRun`: allocator-fresh ids outside strict mode, leader-validated keys in trusted
+    mode, no raw truncate below RetainedMaxSeq) — appends in all three modes, same batch or
+    later batches, truncations, trims, lease closes, whole-DB reopens — two live rows of a
+    channel with the same non-empty (sender, clientMsgNo) have the same sequence. -/
+theorem c08_unique_idem (ops : List Op) (hs : SafeRun Store.init ops) (c : Nat) :
+    UniqueIdem ((run Store.init ops).chan c).rows :=
+  unique_idem_of_inv _ (inv_run Store.init ops inv_init hs) c
+
+/-- **c08_msgid_unique**: … and a message id is stored at most once across all channels of the node
+    (strict mode unconditionally; server-allocated / trusted modes given the allocator's freshness, which is `Safe`). -/
+theorem c08_msgid_unique (ops : List Op) (hs : SafeRun Store.init ops) : UniqueIds (run Store.init ops) :=
+  unique_ids_of_inv _ (inv_run Store.init ops inv_init hs)
+
+example : SafeRun Store.init [.app 0 0 0 [⟨5, [1], [2], [3], 4⟩], .reopen, .app 0 1 0 [⟨6, [1], [2], [3], 4⟩]] :=
+  ⟨⟨by decide, fun h => absurd rfl h, fun h => by cases h⟩, trivial,
+   ⟨by decide, fun _ => by decide +kernel, fun h => by cases h⟩, trivial⟩
+
+/-- **c08_dup_key_rejected**: in every reachable store a validating append (strict or
+    server-allocated-id mode) of a row whose (sender, clientMsgNo) is live in the channel is
+    rejected, whatever else is in the batch — the server-allocated fast path included. -/
+theorem c08_dup_key_rejected (st : Store) (hi : Inv st) (c mode : Nat) (seen seen' : Seen) (row : Row)
+    (hm : mode ≠ 2) (hk : Keyed row) (hlive : ∃ r ∈ (st.chan c).rows, r.frm = row.frm ∧ r.cmn = row.cmn)
+    (hseq : ∀ r ∈ (st.chan c).rows, r.seq ≠ row.seq) : validateRow st c mode seen row ≠ .ok seen' :=
+  dup_key_rejected st hi c mode seen seen' row hm hk hlive hseq
+
+/-- **c08_dup_id_rejected**: in every reachable store a strict append of a message id that is live
+    in any channel of the node is rejected. -/
+theorem c08_dup_id_rejected (st : Store) (hi : Inv st) (c : Nat) (seen seen' : Seen) (row : Row)
+    (hlive : ∃ c' r, r ∈ (st.chan c').rows ∧ r.id = row.id) (hseq : ∀ r ∈ (st.chan c).rows, r.seq ≠ row.seq) :
+    validateRow st c 0 seen row ≠ .ok seen' :=
+  dup_id_rejected st hi c seen seen' row hlive hseq
+
+-- non-vacuity: the second append of the same key after a reopen is rejected by the model
+example : (step (run Store.init [.app 0 0 0 [⟨5, [1], [2], [3], 4⟩], .reopen]) (.app 0 1 0 [⟨6, [1], [2], [3], 4⟩])).2 = .err .conflict := by
+  decide +kernel
 
 end WK.C08
